@@ -144,6 +144,67 @@ def hostile_requests(TG, rnd, tier, channels=("dismain", "parse", "loadasm")):
                         reqs.append(f"{ch} {instgen.to_bytes(w).hex()}")
                     norder += 1
     stats["constant before / between type declarations"] = norder
+    # strings that are not UTF-8, in every position a string can take (alone, followed by operands, as an enumerant's parameter): the
+    # decoder's own error variant with a nested error value — and its text, which `rspirv-dis` prints
+    sv_ = g.vix["LiteralString"]
+    nbad = 0
+    for raw in (b"\xff", b"caf\xe9.glsl", b"ab\x80", b"\xc3", b"\xe2\x82", b"\xc0\xaf", b"\xed\xa0\x80", b"\xf4\x90\x80\x80", b"abc\xfe\xffdefgh"):
+        for mk in (lambda b: instgen.Inst(g.opv["Extension"], "Extension", None, None, [instgen.Op("s", sv_, list(b))]),
+                   lambda b: instgen.Inst(g.opv["String"], "String", None, 1, [instgen.Op("s", sv_, list(b))]),
+                   lambda b: instgen.Inst(g.opv["Name"], "Name", None, None, [instgen.Op("w", g.vix["IdRef"], 1), instgen.Op("s", sv_, list(b))]),
+                   lambda b: instgen.Inst(g.opv["EntryPoint"], "EntryPoint", None, None, [instgen.Op("w", g.vix["ExecutionModel"], 0), instgen.Op("w", g.vix["IdRef"], 2), instgen.Op("s", sv_, list(b)), instgen.Op("w", g.vix["IdRef"], 3)]),
+                   lambda b: instgen.Inst(g.opv["ExtInstImport"], "ExtInstImport", None, 1, [instgen.Op("s", sv_, list(b))])):
+            w = instgen.header(bound=100) + mk(raw).words()
+            for ch in channels:
+                reqs.append(f"{ch} {instgen.to_bytes(w).hex()}")
+            nbad += 1
+    stats["strings that are not UTF-8"] = nbad
+    # every `<Kind>Unknown` decode error once: for each enumerant / mask operand kind (also the kinds that only occur as parameters of
+    # another kind's enumerants) an instruction carrying an operand of that kind, with that word replaced by an undeclared value — each
+    # kind has its own arm in the generated decoder, error type and error text
+    kinds_vi = {}
+    for m_ in g.dec.values():
+        if m_["type"] in g.vix:
+            kinds_vi[g.vix[m_["type"]]] = m_
+    carriers = {}
+
+    def scan(inst_):
+        pos = 1 + (inst_.rtype is not None) + (inst_.rid is not None)
+        for o_ in inst_.ops:
+            if o_.kind == "w" and o_.variant in kinds_vi and o_.variant not in carriers:
+                carriers[o_.variant] = (inst_, pos)
+            pos += len(o_.words())
+    for e_ in g.core:
+        if any(k in ("LiteralContextDependentNumber", "LiteralSpecConstantOpInteger") for k, _ in e_["ops"]):
+            continue
+        nopt = sum(1 for _, q in e_["ops"] if q == "ZeroOrOne")
+        try:
+            g.next_id = 10
+            scan(g.inst(e_, opt_count=nopt, many=1))
+        except Exception:
+            pass
+    for kind_, values_ in g.parameterised():
+        hosts = [r for r in g.nestable() if any(k == kind_ for k, _ in r["ops"])]
+        for v_ in values_:
+            if not hosts:
+                break
+            nopt = sum(1 for _, q in hosts[0]["ops"] if q == "ZeroOrOne")
+            try:
+                g.next_id = 10
+                scan(g.inst(hosts[0], opt_count=nopt, many=1, force_kind=(kind_, v_)))
+            except Exception:
+                pass
+    nunk = 0
+    for vi_, (inst_, pos_) in sorted(carriers.items()):
+        for bad in ((0x40000000, 0x80000000) if kinds_vi[vi_]["mask"] else (0x7fffffff, 0x00fffff0)):
+            ws = inst_.words()
+            ws[pos_] = bad | (ws[pos_] if kinds_vi[vi_]["mask"] else 0)
+            w = instgen.header(bound=100) + ws
+            for ch in channels:
+                reqs.append(f"{ch} {instgen.to_bytes(w).hex()}")
+            nunk += 1
+    stats["every <Kind>Unknown error"] = nunk
+    stats["operand kinds with a carrier instruction"] = len(carriers)
     for _ in range(40 if tier == "quick" else 2000):
         n = rnd.choice([0, 1, 3, 4, 19, 20, 21, 24, 64, rnd.randrange(0, 200)])
         data = bytes(rnd.randrange(256) for _ in range(n))
@@ -273,7 +334,7 @@ def run(ctx):
         "consumer = a function from callback index to continue/stop/error; a consumer that itself panics is not 'well-behaved'",
         "the disassembler and assembler models are total Lean functions: their freedom from panics is tied to the code by the differential on every accepted module, not by a theorem about explicit panic sites"]
     return C.finish(ctx, level="proof", checker_cmd="lake build Rspirv.Props.C04 + #print axioms",
-                    rule="pre-fix panic corpus first; seeded modules x {every truncation, hostile word substitutions, word-count and opcode corruption, insert/delete} through rspirv-dis' main path, parse and load+assemble; every opcode nested in OpSpecConstantOp; constants of unsupported widths; random bytes; decoder scripts with limits 0..usize::MAX; distinct non-trivial = distinct (channel, outcome kind)",
+                    rule="pre-fix panic corpus first; seeded modules x {every truncation, hostile word substitutions, word-count and opcode corruption, insert/delete} through rspirv-dis' main path, parse and load+assemble; every opcode nested in OpSpecConstantOp; constants of unsupported widths; random bytes; decoder scripts with limits 0..usize::MAX; implementation only: binaries holding an instruction of the largest expressible size, also cut short, through every entry point; distinct non-trivial = distinct (channel, outcome kind)",
                     trusted=["hand models Decoder/Parser/Loader/LoadBytes/Disasm + differential harness", "abstract interpretation `tablesSafe` (proved sound: loop_safe)"])
 
 
